@@ -263,6 +263,7 @@ func one(r *ev.Run, c *ev.Case, i int, mu *sync.Mutex, seenKeys map[string]int) 
 			a.TouchlessSudo = &message.TouchlessSudo{IsFirefighter: rng.Intn(2) == 0, Hosts: "host1,host2", Time: int64(1 + rng.Intn(30))}
 		}
 		param.Attrs = a
+		param.SignatureAlgo = a.SignatureAlgo // as csr.NewReqParam copies it
 		rec.ClientAttrs = a
 	}
 	runErr, escaped := gsrig.Run(param, []gensign.Handler{rig.Handler}, rig.Signer)
